@@ -26,6 +26,9 @@ pub enum KsfSpec {
     /// version (0x10 if `v10`, else 0x13), costs, and a secret ("pepper") selected from a
     /// static table (0 = none)
     Argon2Ex { alg: u8, v10: bool, m_kib: u32, t: u32, p: u32, secret: u8 },
+    /// Argon2id with an explicitly configured output length (`Params::output_len`), which need
+    /// not match the suite's hash length: the adapter must then fail cleanly
+    Argon2Out { m_kib: u32, t: u32, p: u32, out_len: u32 },
     /// cheap salted hash family H_i (SHA-512 in counter mode over i || input)
     H(u8),
     /// behaves like `then`, except that it fails with `InternalError::KsfError`
@@ -75,6 +78,11 @@ pub fn argon2_instance(spec: &KsfSpec) -> Option<argon2::Argon2<'static>> {
             argon2::Algorithm::Argon2id,
             argon2::Version::V0x13,
             argon2::Params::new(*m_kib, *t, *p, None).ok()?,
+        )),
+        KsfSpec::Argon2Out { m_kib, t, p, out_len } => Some(argon2::Argon2::new(
+            argon2::Algorithm::Argon2id,
+            argon2::Version::V0x13,
+            argon2::Params::new(*m_kib, *t, *p, Some(*out_len as usize)).ok()?,
         )),
         KsfSpec::Argon2Ex { alg, v10, m_kib, t, p, secret } => {
             let algorithm = match alg {
@@ -162,7 +170,7 @@ fn eval<L: ArrayLength<u8>>(
             a.hash(input)
         }
         KsfSpec::Argon2Default => argon2::Argon2::default().hash(input),
-        KsfSpec::Argon2Ex { .. } => argon2_instance(spec)
+        KsfSpec::Argon2Ex { .. } | KsfSpec::Argon2Out { .. } => argon2_instance(spec)
             .expect("harness: generated Argon2 parameters must be valid")
             .hash(input),
         KsfSpec::H(i) => {
@@ -246,7 +254,7 @@ impl KsfBuild for argon2::Argon2<'static> {
     fn build(_tag: u32, spec: &KsfSpec) -> Option<Self> {
         match spec {
             KsfSpec::Argon2Default => Some(argon2::Argon2::default()),
-            KsfSpec::Argon2 { .. } | KsfSpec::Argon2Ex { .. } => argon2_instance(spec),
+            KsfSpec::Argon2 { .. } | KsfSpec::Argon2Ex { .. } | KsfSpec::Argon2Out { .. } => argon2_instance(spec),
             _ => None,
         }
     }
@@ -277,7 +285,7 @@ pub fn pure_stretch(spec: &KsfSpec, input: &[u8]) -> Option<Vec<u8>> {
                 .ok()?;
             Some(out)
         }
-        KsfSpec::Argon2Ex { .. } => {
+        KsfSpec::Argon2Ex { .. } | KsfSpec::Argon2Out { .. } => {
             let mut out = vec![0u8; input.len()];
             argon2_instance(spec)?.hash_password_into(input, &[0u8; 16], &mut out).ok()?;
             Some(out)
